@@ -1,11 +1,14 @@
 import Holpy.C13.Wire
 import Holpy.C14.Model
+import Holpy.C13.ExportModel
 /-
 Line protocol, additions for the method-level model of C14 (everything else: Holpy/C13/Wire.lean):
   (cut STATE ID TH)                      -> (ok STATE) | (error KIND)     cut_method.apply
   (forward STATE ID RULE (ID ...) TH)    -> (ok STATE) | (error KIND)     add_line_before(id,1) + set_line
   (cases STATE ID RULE TH1 TH2 CONCL T|F T|F) -> (ok STATE) | (error KIND)
   (advertised ((ITEM T|F) ...))          -> (TH ...)
+  (roundtrip STATE)                      -> (ok STATE) | (error KIND)     importLines [] (exportLines STATE)
+  (import ((ID RULE (ID ...) TH) ...))   -> (ok STATE) | (error KIND)
 -/
 open Holpy Holpy.C13 Holpy.C13.Wire
 
@@ -28,6 +31,16 @@ def handle (line : String) : String :=
   | some (.list [.atom "advertised", new]) =>
     match newOf new with
     | some new => toString (Sexp.list ((advertised new).map thTo))
+    | none => "bad-op"
+  | some (.list [.atom "roundtrip", st]) =>
+    match stateOf st with
+    | some s => resTo (importLines [] (exportLines s))
+    | none => "bad-op"
+  | some (.list [.atom "import", ls]) =>
+    match ls.toList? >>= fun xs => xs.mapM (fun
+        | .list [i, r, p, t] => do some (⟨← idOf i, ← r.toNat?, ← idsOf p, ← thOf t⟩ : Line)
+        | _ => none) with
+    | some lines => resTo (importLines [] lines)
     | none => "bad-op"
   | _ => Holpy.C13.Wire.handle line
 
